@@ -83,7 +83,8 @@ def check(ctx, res) -> None:
     src = {}
     for nd in walk_local(si.node):
         if isinstance(nd, ast.Assign) and isinstance(nd.targets[0], ast.Name):
-            attrs = [x.attr for x in ast.walk(nd.value) if isinstance(x, ast.Attribute) and isinstance(x.value, ast.Name) and x.value.id == "visitor"]
+            attrs = [x.attr for x in ast.walk(nd.value) if isinstance(x, ast.Attribute) and isinstance(x.value, ast.Name)
+                     and x.attr in ("future", "standard", "third_party", "in_project")]
             if attrs:
                 src[nd.targets[0].id] = attrs[0]
     if not moves:
